@@ -3,7 +3,7 @@ import json
 from .. import common
 
 T_TEXT = "name T\nversion 1.0\ntarget X8_01 (shots=10, flags=[1, 2])\n\nfloat array M =\n    {b}, 2\nfloat v = {b}\nG({a}) | 0\nVac | 1\nK(l=[1, 2]) | 0\n"
-P_TEXT = "name P\nversion 1.0\n\nint array N =\n    3, 4\nVac | 0\nH(5) | 1\n"
+P_TEXT = "name P\nversion 1.0\n\nint array N =\n    3, 4\nVac | 0\nH(5, 2*q0) | 1\n"
 
 
 def digest(p):
@@ -36,6 +36,8 @@ def value_ok(spec, real):
         return isinstance(real, (int, float, np.number)) and float(real) == float(spec["n"])
     if k == "sym":
         return isinstance(real, sym.Expr) and str(real) == spec["p"]
+    if k == "rrt":
+        return type(real).__name__ == "RegRefTransform" and list(real.regrefs) == [spec["r"]]
     if k == "list":
         return isinstance(real, list) and len(real) == len(spec["xs"]) and all(value_ok(a, b) for a, b in zip(spec["xs"], real))
     if k == "arr":
